@@ -201,6 +201,10 @@ class _Gen:
         for _ in range(50):
             n = self.draw(st.integers(1, 3))
             name = ("_" if self.boolean(0.04) else "").join(self.draw(st.sampled_from(TYPE_WORDS)) for _ in range(n))
+            if dir_ in SUBDIRS and self.boolean(0.12):
+                # a type of the parent directory whose name starts with the name of a sub-directory
+                # (pub: ServerInfoKind next to pub/server): path arithmetic on module names must not confuse the two
+                name = self.pick(sorted(SUBDIRS[dir_])).capitalize() + name
             if not name[0].isalpha():
                 continue
             if self.boolean(0.04):
@@ -494,7 +498,7 @@ class _Gen:
         if structs:
             choices.append(("struct", 30))
         breaking = [x for x in structs if any(i["tag"] == "break" for i in spec.Analysis.flatten(self.an.types[x][0]["body"]))]
-        if breaking and self.boolean(0.45 if ctx["lex"] else 0.12):
+        if breaking and self.boolean(0.3 if ctx["lex"] else 0.1):
             # elements that carry their own <chunked>/<break>: one element spans several chunks of the parent
             return self.pick_type(dir_, breaking)
         almost = [x for x in structs if x in self.almost_fixed]
@@ -690,7 +694,10 @@ class _Gen:
                 if r["kind"] == "enum":
                     members = [v for v in r["decl"]["values"] if v["name"] not in used]
                     declared = {v["ord"] for v in r["decl"]["values"]}
-                    if members and self.boolean(0.8):
+                    odd = [v for v in members if v["name"] == "None"]
+                    if odd and self.boolean(0.5):
+                        val = "None"        # the one value name that is not its own Python member name
+                    elif members and self.boolean(0.8):
                         val = self.pick(members)["name"]
                     else:
                         o = self.draw(st.integers(0, 40))
